@@ -9,6 +9,7 @@ from flamapy.metamodels.fm_metamodel.models import FeatureModel, Feature, Constr
 
 ATTRIBUTED_FEATURE = 'AttributedFeature'
 INSTANCE = 'CP'
+CLAFER_KEYWORDS = ('abstract', 'xor', 'or', 'mux', 'not')
 
 
 class ClaferAttributeType(Enum):
@@ -172,7 +173,10 @@ def parse_type_value(value: Any) -> str:
 
 
 def safename(name: str) -> str:
-    return f'"{name}"' if any(char not in safecharacters() for char in name) else name
+    # the words this writer emits as keywords cannot be used bare as identifiers
+    if name in CLAFER_KEYWORDS or any(char not in safecharacters() for char in name):
+        return f'"{name}"'
+    return name
 
 
 def safecharacters() -> str:
